@@ -4334,13 +4334,13 @@ SITES = {
     "C07": [flags_verdict_wiring, reporter_chain, library_entry_wiring, sarif_one_result_per_message, report_combine_union, structured_report, junit_test_case, junit_report, validate_execute_step,
             data_input_params_wiring, structured_merge_closure],
     "C16": [test_generic_report, test_get_by_result, test_get_by_rules, test_structured_evaluate, test_result_exit_code, test_junit_counts, test_data_per_spec],
-    "C02": [param_ctx_end_record, scope_delegations],
+    "C02": [param_ctx_end_record, scope_delegations, param_rule_call],
     "C09": [report_partition, report_rule_listing, report_clause_content, report_combine_union, unary_empty_on_expr, param_ctx_end_record],
     "C10": [report_clause_content],
     "C15": [scope_resolution, scope_discipline, scope_delegations, variable_tables, param_rule_call, param_ctx_resolve],
     "C03": [param_rule_call],
     "C04": [rule_status_semantics, root_scope_rule_table, scope_delegations, scope_resolution],
-    "C01": [rule_status_semantics, root_scope_rule_table, scope_discipline, scope_resolution, scope_delegations, variable_tables],
+    "C01": [rule_status_semantics, root_scope_rule_table, scope_discipline, scope_resolution, scope_delegations, variable_tables, param_rule_call, param_ctx_resolve],
     "C17": [merge_map, merge_unwrap, param_files_fold_step, data_input_params_wiring, structured_merge_closure, supported_extension_predicate, walk_dir_unfiltered],
     "C08": [merge_unwrap, rulegen_unwrap, test_exit_code_domain, report_builder_total_on_unary],
 }
